@@ -654,11 +654,19 @@ fn c14(seed: u64, thorough: bool) -> Scenario {
     }
     // flags
     let shape = g.rng.below(100);
-    let k = g.rng.range(1, 4);
-    let mut subset: Vec<String> = Vec::new();
-    for _ in 0..k {
-        subset.push(g.rng.pick(model::VALIDATORS).to_string());
-    }
+    // every subset size, including "all seven" and "all but one"
+    let mut subset: Vec<String> = match g.rng.below(8) {
+        0 => model::VALIDATORS.iter().map(|v| v.to_string()).collect(),
+        1 => {
+            let skip = g.rng.below(model::VALIDATORS.len());
+            model::VALIDATORS.iter().enumerate().filter(|(i, _)| *i != skip).map(|(_, v)| v.to_string()).collect()
+        }
+        _ => {
+            let k = g.rng.range(1, 5);
+            (0..k).map(|_| g.rng.pick(model::VALIDATORS).to_string()).collect()
+        }
+    };
+    g.rng.shuffle(&mut subset);
     if g.rng.chance(1, 4) {
         let d = subset[0].clone();
         subset.push(d); // a repeated flag must compose as set union
